@@ -214,6 +214,11 @@ def gen_cases(tier, seed):
     for mname, w in mods:
         add("asan-repotests", "asan-repotests-%s" % os.path.basename(mname).replace(".py", ""), variant="asan", threads=4,
             weight=w, timeout=3600, module=mname)
+    # (vi) valgrind memcheck on tiny drivers: complements ASan with uninitialised-value use and with accesses that ASan's
+    # red zones miss when they land in another live block; 50x slower, so one-atom systems only
+    mc = MEMCHECK_QUICK if q else MEMCHECK_QUICK + MEMCHECK_THOROUGH
+    for j, inner in enumerate(mc):
+        add("memcheck", "memcheck-%s" % inner["name"], threads=1, weight=30.0, timeout=3000, inner=inner)
     # the sanitizer drivers are the long pole: schedule their worker group first
     cases.sort(key=lambda c: 0 if c.get("_variant") == "asan" else 1)
     return cases
@@ -272,6 +277,151 @@ def run_case(case, rec):
         boot.MODE["strict"] = False
     if strict:
         _check_strict(rec, boot.STRICT_ERRORS[n0:])
+
+
+def _mc_cfg(name, family, spin, mol, plan_type=None, interp=None, **kw):
+    c = {"family": family, "spin": spin, "mol": mol, "basis": "sto-3g", "level": 0, "max_memory": 2000, "nset": 1, "mode": "SEP",
+         "evaluator": "rbf"}
+    if plan_type:
+        c["plan_type"] = plan_type
+        c["interp"] = interp
+    c.update(kw)
+    return {"name": name, "what": "e2e", "cfg": c}
+
+
+MEMCHECK_QUICK = [_mc_cfg("vj-mgga-He", "vj-mgga", "rks", "He", "gaussian", "onsite_direct"),
+                  _mc_cfg("vk-gga-Li", "vk-gga", "uks", "Li", "spline", "onsite_spline"),
+                  _mc_cfg("sdmxg1-He", "sdmxg1", "rks", "He"),
+                  {"name": "fft+evaluators", "what": "direct"}]
+MEMCHECK_THOROUGH = [_mc_cfg("vi-mgga-He", "vi-mgga", "rks", "He", "spline", "onsite_direct"),
+                     _mc_cfg("vij-gga-Li", "vij-gga", "uks", "Li", "gaussian", "onsite_spline"),
+                     _mc_cfg("vj-expnt-He", "vj-expnt", "rks", "He", "spline", "onsite_direct"),
+                     _mc_cfg("vk-mgga-LiH", "vk-mgga", "rks", "LiH", "gaussian", "onsite_direct", nset=2),
+                     _mc_cfg("sdmx-Li", "sdmx", "uks", "Li"), _mc_cfg("sdmx1-He", "sdmx1", "rks", "He"),
+                     _mc_cfg("sdmxfull-He", "sdmxfull", "rks", "He"),
+                     _mc_cfg("sl-npa-Li", "sl-npa", "uks", "Li", mode="POL", evaluator="spinrbf"),
+                     _mc_cfg("vj+sdmx-He", "vj+sdmx", "rks", "He", "gaussian", "onsite_direct", max_memory=1)]
+_MC_KINDS = ("Invalid read", "Invalid write", "Conditional jump or move depends on uninitialised value", "Use of uninitialised value",
+             "Syscall param", "Invalid free", "Mismatched free", "Source and destination overlap", "Argument .* of function .* has a fishy",
+             "Process terminating with default action of signal", "Jump to the invalid address")
+_MC_LIBS = ("libmcider", "libnumint", "libxc_utils", "libfft_wrapper", "/ciderpress/lib/")
+
+
+def _run_mc_inner(case, rec, rng):
+    inner = case["inner"]
+    if inner["what"] == "e2e":
+        cfg = inner["cfg"]
+        s = _drive_e2e(rec, cfg, rng, "memcheck|%s|%s|%s" % (cfg["family"], cfg["spin"], cfg["mol"]))
+        rec.set_sample(s)
+    else:
+        from vlib import gen
+        _run_asan_fft({"n": 4, "idx": case["idx"]}, rec, rng)
+        for kind, n1 in (("rbf", 4), ("spinrbf", 3), ("subrbf", 4), ("kernel", 3), ("linear", 3)):
+            try:
+                ev = gen.rand_evaluator(kind, n1, rng, nctrl=7)
+            except Exception as e:  # noqa: BLE001
+                rec.note("evaluator_not_built[%s]" % kind, repr(e)[:120])
+                continue
+            X = rng.normal(size=(2, 33, n1)) if kind == "spinrbf" else rng.normal(size=(33, n1))
+            res, dres = ev(X)
+            rec.require("evaluator_finite", bool(np.all(np.isfinite(res)) and np.all(np.isfinite(dres))), mechanism="evaluator:nonfinite[%s]" % kind)
+            rec.nontrivial("memcheck-direct|%s" % kind)
+
+
+def _mc_blocks(txt):
+    """Error contexts of a memcheck log: list of (kind line, [frame lines])."""
+    blocks, cur = [], None
+    for line in txt.splitlines():
+        m = re.match(r"==\d+== (.*)$", line)
+        if not m:
+            continue
+        body = m.group(1)
+        if cur is None:
+            if any(re.match(k, body) for k in _MC_KINDS):
+                cur = (body, [])
+        else:
+            if body.strip() == "":
+                blocks.append(cur)
+                cur = None
+            else:
+                cur[1].append(body.strip())
+    if cur:
+        blocks.append(cur)
+    return blocks
+
+
+def _run_memcheck(case, rec, rng):
+    """Runs one inner driver case in a worker process under valgrind memcheck and classifies the error contexts: only
+    those with a frame in the repository's libraries count (CPython, numpy, ld.so and OpenBLAS produce known noise)."""
+    import json
+    import shutil
+    import subprocess
+    import sys
+    import tempfile
+
+    from vlib import boot
+    vg = shutil.which("valgrind")
+    if not vg:
+        rec.set_inconclusive("valgrind not found")
+        return
+    inner = dict(case, kind="mc-inner", id=case["id"] + "-inner")
+    d = tempfile.mkdtemp(prefix="memcheck_", dir=os.path.join(boot.VERIF_ROOT, ".build", "logs"))
+    try:
+        cpath, opath, lpath = os.path.join(d, "cases.json"), os.path.join(d, "out.jsonl"), os.path.join(d, "vg.log")
+        json.dump([inner], open(cpath, "w"))
+        env = dict(os.environ, PYTHONMALLOC="malloc", OMP_NUM_THREADS="2", OPENBLAS_NUM_THREADS="1", NUMBA_NUM_THREADS="1")
+        cmd = [vg, "--tool=memcheck", "--error-exitcode=0", "--num-callers=30", "--undef-value-errors=yes", "--track-origins=no",
+               "--error-limit=no", "--log-file=" + lpath, sys.executable, "-m", "vlib.worker", "checks.c18", cpath, opath]
+        try:
+            r = subprocess.run(cmd, cwd=boot.VERIF_ROOT, env=env, capture_output=True, text=True, timeout=case["_timeout"] - 120)
+        except subprocess.TimeoutExpired:
+            rec.set_inconclusive("memcheck driver did not finish within the watchdog")
+            return
+        res = None
+        if os.path.exists(opath):
+            for line in open(opath):
+                try:
+                    dd = json.loads(line)
+                except ValueError:
+                    continue
+                if not dd.get("_summary"):
+                    res = dd
+        txt = open(lpath, errors="replace").read() if os.path.exists(lpath) else ""
+        blocks = _mc_blocks(txt)
+        ours, noise = {}, 0
+        # frames with debug info read "func (file.c:line)": match the base names of the repository's C sources as well
+        srcs = set()
+        for root, _, files in os.walk(os.path.join(boot.REPO, "ciderpress", "lib")):
+            srcs.update(f for f in files if f.endswith((".c", ".h")))
+        pat = re.compile(r"\((%s):\d+\)" % "|".join(re.escape(x) for x in sorted(srcs))) if srcs else None
+        for kind, frames in blocks:
+            hit = [f for f in frames if any(t in f for t in _MC_LIBS) or (pat is not None and pat.search(f))]
+            if not hit:
+                noise += 1
+                continue
+            m = re.search(r"(?:at|by) 0x[0-9A-Fa-f]+: (\S+) \((?:in )?([^):]+)", hit[0])
+            where = "%s:%s" % (os.path.basename(m.group(2)), re.sub(r"\.(_omp_fn|constprop|isra|part|cold)\.?\d*", "", m.group(1))) if m else "unknown"
+            kshort = kind.split(" of size")[0].split(" depends on")[0].replace(" ", "-").lower()[:40]
+            ours.setdefault("memcheck:%s:%s" % (kshort, where), "\n".join([kind] + frames[:14]))
+        rec.note("memcheck_contexts_total", len(blocks))
+        rec.note("memcheck_contexts_outside_repository_libraries(ignored)", noise)
+        rec.require("memcheck_clean", not ours, mechanism=sorted(ours)[0] if ours else None, detail=list(ours.values())[:3])
+        for k in sorted(ours)[1:]:
+            rec.require("memcheck_clean", False, mechanism=k, detail=ours[k])
+        if res is None or "ERROR SUMMARY" not in txt:
+            rec.set_inconclusive("inner driver under valgrind produced no result (exit %s): %s" % (r.returncode, (r.stdout + r.stderr)[-300:]))
+            return
+        for f in res.get("failures") or []:
+            rec.require("inner[%s]" % f.get("oracle"), False, mechanism=f.get("mechanism"), detail=f.get("detail"))
+        if res.get("status") == "error":
+            rec.set_inconclusive("inner driver raised under valgrind: %s" % str(res.get("error"))[:300])
+            return
+        if res.get("nontrivial"):
+            rec.nontrivial("memcheck|%s" % case["inner"]["name"])
+        rec.set_sample({"inner": case["inner"], "valgrind_contexts": len(blocks), "in_repository_libraries": len(ours),
+                        "inner_oracles": sorted((res.get("oracles") or {}).keys())[:20]})
+    finally:
+        shutil.rmtree(d, ignore_errors=True)
 
 
 REPO_TESTS_QUICK = [("ciderpress/dft/tests/test_plans.py", 20.0), ("ciderpress/dft/tests/test_interpolation.py", 20.0),
